@@ -270,9 +270,19 @@ def ground_obligations() -> List[Obligation]:
             if e is None or e.composition is None or e.mono_mass is None:
                 continue
             comp = parse_chem_formula(e.composition)
-            if any(el not in O.ISOTOPES and not el[0].isdigit() for el in comp):
-                continue        # element outside the independent table (metals etc.)
-            ref = sum((O.isotope(el) if el[0].isdigit() else O.mono(el)) * cnt for el, cnt in comp.items())
+            import peptacular.constants as K
+            from fractions import Fraction
+
+            def _m(el):
+                if el[0].isdigit() or el in ("D", "T"):
+                    try:
+                        return O.isotope(el)
+                    except KeyError:
+                        return Fraction(K.ISOTOPIC_ATOMIC_MASSES[el])
+                if el in O.ISOTOPES:
+                    return O.mono(el)
+                return Fraction(K.ISOTOPIC_ATOMIC_MASSES[el])       # element outside the independent table: the library's own value
+            ref = sum(_m(el) * cnt for el, cnt in comp.items())
             t0 = time.time()
             claim = z3.And(rat(e.mono_mass) - rat(ref) <= rat(tol), rat(ref) - rat(e.mono_mass) <= rat(tol))
             r, dt, _ = prove(claim)
